@@ -6108,14 +6108,13 @@ class Choice:
 
     def resolve_defaults(self):
         # if choice has a user selection but some of its symbols have default value,
-        # "user-set" those symbols manually.
-        # As the choice will become fully user-set, we will skip the rest of the "default value" logic.
+        # the choice as a whole is user-set (see Symbol.has_active_default_value()) and we skip the rest
+        # of the "default value" logic. The default-marked entries must not become user values of their
+        # symbols: they would stay behind as user values after the user selection is removed again.
         if self._defaults_resolved or self.resolve_vis() == 0:
             return
 
         if self._user_selection is not None:
-            for sym in self.syms:
-                self.kconfig.set_value_and_source(sym, sym.bool_value, self.kconfig.filename)
             # In this case, we did not resolve "defaults", but the flag can still be used.
             self._defaults_resolved = True
             return
